@@ -17,12 +17,12 @@ theorem repeated_path (line : Str) (p1 p2 : Str) (X : List Str)
     (hl : startsWith line Markers.diffGit = true)
     (hp1 : p1 ∈ Markers.diffPrefixes) (hp2 : p2 ∈ Markers.diffPrefixes)
     (hx1 : (p1 ++ X.flatten).getLast? ≠ some '\t') (hx2 : (p2 ++ X.flatten).getLast? ≠ some '\t') :
-    repeatedFilePath line (singles p1 ++ X ++ [[' ']] ++ singles p2 ++ X) = .ok (some X.flatten) :=
+    repeatedFilePath line (singles p1 ++ X ++ [[' ']] ++ singles p2 ++ X) = some X.flatten :=
   Headers.repeated_path line p1 p2 X hl hp1 hp2 hx1 hx2
 
 example : (match repeatedFilePath "diff --git a/my file.rs b/my file.rs".toList
     (singles "a/".toList ++ singles "my file.rs".toList ++ [[' ']] ++ singles "b/".toList ++ singles "my file.rs".toList) with
-  | .ok (some p) => p == "my file.rs".toList
+  | some p => p == "my file.rs".toList
   | _ => false) = true := by decide
 
 /-- the slice offsets of `parse_diff_header_line` are the lengths of the literals they follow -/
@@ -36,63 +36,47 @@ theorem hunk_header_fragment_intact (k j : Nat) (hk : 0 < k) (hj : 0 < j) (c f :
   Headers.hunk_header_fragment_intact k j hk hj c f hc hcat hf
 
 example : (match parseHunkHeader "@@ -74,15 +75,14 @@ pub fn delta(".toList with
-  | .ok (some h) => h.coords == [(74, 15), (75, 14)] && h.fragment == " pub fn delta(".toList
+  | some h => h.coords == [(74, 15), (75, 14)] && h.fragment == " pub fn delta(".toList
   | _ => false) = true := by decide
 
 /-- `hunk_header_row_carries_fragment`: when the style shows the fragment, the hunk-header row ends
 with the fragment (followed by one blank), tabs expanded, nothing else changed. -/
-theorem hunk_header_row_carries_fragment (cfg : Cfg) (m : M) (hh : HunkHeader) (line : Str) (t : Str)
+theorem hunk_header_row_carries_fragment (cfg : Cfg) (m : M) (hh : HunkHeader) (line : Str) (n : Nat) (t : Str)
     (hco : cfg.colorOnly = false) (hfr : cfg.hhFragment = true) (hne : hh.fragment ≠ [])
-    (e : hunkHeaderText cfg m hh line = .ok (some t)) :
+    (e : hunkHeaderTextOf cfg m hh line n = some t) :
     ∃ pre, t = pre ++ Text.expand cfg.tab (hh.fragment ++ [' ']) := by
-  unfold hunkHeaderText at e
-  cases hgl : hh.coords.getLast? with
-  | none => simp [hgl] at e
-  | some p =>
-    simp only [hgl, hco, Bool.false_eq_true, if_false, hfr, hne, ne_eq, not_false_eq_true, and_self, if_true] at e
-    by_cases hc : (hh.fragment ++ [' '] = [] ∧
-        ((if cfg.hhFile = true then if m.plusFile = Markers.devNull then m.minusFile else m.plusFile else []) ++
-          if cfg.hhLineNumber = true ∧ ¬cfg.hunkHeaderStyle.isRaw = true ∧ ¬False then
-            (if cfg.hhFile = true then [':'] else []) ++ (toString p.1).toList
-          else []) = [])
-    · exact absurd hc.1 (by simp)
-    · simp only [List.append_eq_nil_iff, List.cons_ne_self, and_false, false_and, if_false,
-        Except.ok.injEq, Option.some.injEq, reduceCtorEq] at e
-      exact ⟨_, e.symm⟩
+  unfold hunkHeaderTextOf at e
+  simp only [hco, Bool.false_eq_true, if_false, hfr, hne, ne_eq, not_false_eq_true, and_self, if_true] at e
+  simp only [List.append_eq_nil_iff, List.cons_ne_self, and_false, false_and, if_false,
+    Option.some.injEq, reduceCtorEq] at e
+  exact ⟨_, e.symm⟩
 
 /-- `header_written_once`: at a `+++ ` / `rename to` / `copy to` line whose file pair has not been
 announced yet, exactly the header rows (a blank row and the decorated description) are written,
 after everything buffered, and the pair is remembered … -/
-theorem header_written_once (cfg : Cfg) (m1 m' : M) (l : L) (b : Bool)
-    (hco : cfg.colorOnly = false) (hsh : shouldHandle cfg m1 = .ok true)
-    (hnew : m1.handledPair ≠ m1.currentPair) (hom : cfg.fileStyle.isOmitted = false)
-    (e : plusLineFinish cfg m1 l = .ok (b, m')) :
-    m'.handledPair = m'.currentPair ∧ m'.currentPair = m1.currentPair ∧
-    m'.out = m1.out ++ m1.buf ++
+theorem header_written_once (cfg : Cfg) (m1 : M) (l : L)
+    (hco : cfg.colorOnly = false) (hsh : shouldHandle cfg m1 = true)
+    (hnew : m1.handledPair ≠ m1.currentPair) (hom : cfg.fileStyle.isOmitted = false) :
+    (plusLineFinish cfg m1 l).2.handledPair = (plusLineFinish cfg m1 l).2.currentPair ∧
+    (plusLineFinish cfg m1 l).2.currentPair = m1.currentPair ∧
+    (plusLineFinish cfg m1 l).2.out = m1.out ++ m1.buf ++
       ({ kind := .blank, text := [], src := m1.n } ::
         drawRows cfg.fileStyle .file
           (fileChangeDescription cfg.labels m1.minusFile m1.plusFile (m1.source = .diffUnified) m1.minusEvent)
           (fileChangeDescription cfg.labels m1.minusFile m1.plusFile (m1.source = .diffUnified) m1.minusEvent)
           m1.modeInfo m1.n) := by
-  unfold plusLineFinish at e
+  unfold plusLineFinish
   have hw : (shouldWriteGeneric cfg m1 l).1 = false := by simp [shouldWriteGeneric, hco]
-  simp only [hw, Bool.false_eq_true, if_false, hsh] at e
-  simp only [hnew, ne_eq, not_false_eq_true, and_self, if_true, true_and] at e
-  simp only [Except.ok.injEq, Prod.mk.injEq] at e
-  obtain ⟨_, rfl⟩ := e
+  simp only [hw, Bool.false_eq_true, if_false, hsh, hnew, ne_eq, not_false_eq_true, and_self, if_true]
   simp [handleHeaderLine, writeGeneric, hom, hco, emit, direct]
 
 /-- … so that a second header line of the same section (`+++ ` after `rename to`) writes nothing. -/
-theorem header_not_repeated (cfg : Cfg) (m1 m' : M) (l : L) (b : Bool)
-    (hco : cfg.colorOnly = false) (hold : m1.handledPair = m1.currentPair)
-    (e : plusLineFinish cfg m1 l = .ok (b, m')) : m' = m1 := by
-  unfold plusLineFinish at e
+theorem header_not_repeated (cfg : Cfg) (m1 : M) (l : L)
+    (hco : cfg.colorOnly = false) (hold : m1.handledPair = m1.currentPair) :
+    (plusLineFinish cfg m1 l).2 = m1 := by
+  unfold plusLineFinish
   have hw : (shouldWriteGeneric cfg m1 l).1 = false := by simp [shouldWriteGeneric, hco]
-  simp only [hw, Bool.false_eq_true, if_false] at e
-  split at e
-  · cases e
-  · simp only [hold, ne_eq, not_true_eq_false, and_false, if_false, Except.ok.injEq, Prod.mk.injEq] at e
-    exact e.2.symm
+  simp [hw, hold]
 
 -- the description names the right file(s) and event -----------------------------------
 
